@@ -436,7 +436,7 @@ theorem decFn_encPayload {c : CryptoOps} (hc : CryptoLaws c) (s : ObjState) (hg 
     have hr4 := hg.rights henc
     simp only [if_true, hpck, hr]
     rw [kdf_eq c _ _ _ false _ hr4 (keyBitsOf_cases _), kdf_eq c _ _ _ true _ hr4 (keyBitsOf_cases _)]
-    simp only [Bool.false_eq_true, if_false, if_true, blockKey, hg.kdk henc, hg.keyLen]
+    simp only [Bool.false_eq_true, if_false, if_true, blockKey, deriveVia, Sb31Consts.blkCall, hg.kdk henc, hg.keyLen]
     rw [zeroPad16, zeroPad_of_aligned 16 b (by omega)]
     exact cbc_inv hc _ _ b (by simp) (by omega)
 
@@ -670,7 +670,7 @@ theorem newObj_good (c : CryptoOps) (cfg : Cfg) (s : ObjState) (h : newObj c cfg
         omega
       · intro he
         have he' : cfg.encrypted = true := he
-        simp [he']
+        simp [he', deriveVia, Sb31Consts.kdkCall, Sb31Consts.kdfModeKdk]
 
 theorem step_frame (c : CryptoOps) (s : ObjState) (op : Op) :
     (step c s op).cfg = s.cfg ∧ (step c s op).keyLen = s.keyLen ∧ (step c s op).kdk = s.kdk ∧
